@@ -15,3 +15,28 @@ Definition sweep_judge := judge sweep_model N.eqb sweep_ok sweep_known.
    ComputeReportSignatures; the case terms use the constructors of C06_check *)
 Require Export Verif.Check.C06_check.
 Definition c06_judge := Verif.Check.C06_check.c06_judge.
+
+(* ---- no-panic / no-hang reading of other properties' function-level harnesses (their sinks, judged here ONLY for
+   the termination kind the harness recorded: a recovered panic or a watchdog expiry is code 2; what the function
+   returned is that property's business).  The case terms use the constructors of the owning Check module, which the
+   shard file imports next to this one. *)
+Require Verif.Check.C17_check Verif.Check.C09_check Verif.Check.C08_check.
+Section PanicJudge.
+  Context {I O : Type} (bad : O -> bool).
+  Fixpoint pj_from (i : N) (cs : list (I * O)) : list (N * N) :=
+    match cs with
+    | [] => []
+    | (_, o) :: r => (if bad o then [(i, 2%N)] else []) ++ pj_from (N.succ i) r
+    end.
+End PanicJudge.
+Definition res_bad {A} (r : res A) : bool := match r with Panic | Spin => true | _ => false end.
+Definition p_c17_step (cs : list (C17_check.step_in * C17_check.step_out)) := pj_from res_bad 0%N cs.
+Definition p_c17_trunc (cs : list (C17_check.trunc_in * C17_check.trunc_out)) :=
+  pj_from (fun o : C17_check.trunc_out => existsb (fun x => res_bad (fst x)) o) 0%N cs.
+Definition p_c09_ranges (cs : list (C09_check.ranges_in * C09_check.ranges_out)) := pj_from res_bad 0%N cs.
+Definition p_c09_filter (cs : list (C09_check.filter_in * C09_check.filter_out)) := pj_from res_bad 0%N cs.
+Definition p_c09_pend (cs : list (C09_check.pend_in * C09_check.pend_out)) := pj_from res_bad 0%N cs.
+Definition p_c08_add (cs : list (C08_check.add_in * C08_check.c08_out)) :=
+  pj_from (fun o : C08_check.c08_out =>
+             existsb (fun a => match a with C08_check.APanic => true | _ => false end) (fst o)) 0%N cs.
+Definition p_c08_sel (cs : list (C08_check.sel_in * C08_check.sel_out)) := pj_from res_bad 0%N cs.
